@@ -1658,7 +1658,13 @@ def _reduce(kind, x, axis, keepdims=False):
       if kind == "any":
         return sym.sor(*[OPS.truth(v) for v in vals]) if any(isinstance(v, sym.Sym) for v in vals) else any(vals)
     return Tensor(shape, dt, fn_exact)
-  red = Reduction(kind, x, axes, keepdims)
+  rkey = ("reduction", kind, id(x), tuple(axes))
+  red = cur().ghost.get(rkey)
+  if red is None:
+    red = Reduction(kind, x, axes, keepdims)
+    cur().ghost[rkey] = red
+    cur().ghost[("keepalive", id(x))] = x
+  cur().ghost.setdefault("reduce_calls", []).append(red)
 
   def fn(idx):
     kidx = [i for a, i in enumerate(idx) if a not in axes] if keepdims else list(idx)
@@ -1791,11 +1797,15 @@ def tensordot(a, b, axes=2, precision=None):
       for ks in itertools.product(*[range(d) for d in cd]):
         r = r + term(idx, ks)
       return r
-    return Tensor(out_shape, dt, fn_exact)
+    te = Tensor(out_shape, dt, fn_exact)
+    te.tags["tensordot"] = (a, b, ax_a, ax_b)
+    cur().ghost.setdefault("tensordots", []).append(te)
+    return te
   con = Contraction("dot", (a, b), out_shape, term, cdims)
   t = Tensor(out_shape, dt, lambda idx: con.value(idx))
   t.tags["contraction"] = con
   t.tags["tensordot"] = (a, b, ax_a, ax_b)
+  cur().ghost.setdefault("tensordots", []).append(t)
   return t
 
 
